@@ -267,6 +267,6 @@ def obligations(tier, known):
 
 
 CLAIM = ("For every assignment of pool contents to 4/5 files, every digest-collision pattern, and the link/membership bits within the bound, "
-         "find_duplicates returns exactly the byte-wise equivalence classes of size >= 2 of the non-link member files - exhausted by CrossHair.")
+         "find_duplicates returns exactly the byte-wise equivalence classes of size >= 2 of the non-link member files (real/: the real hashlib/filecmp on disk, a link enumerated before or after its target) - exhausted by CrossHair.")
 LEVEL_NOTE = ("Trusted: CrossHair/z3 for the enumeration; the stubs for hashlib/filecmp/open/Path (their contracts: equal content => equal digest; "
               "cmp compares bytes). Bounded: 4/5 files, 3/4 contents.")
